@@ -465,6 +465,7 @@ def gen_history(seed, tier, classes=None, weights=None, n_ops=(6, 16),
       if p2 is not None:
         op["params"] = p2
         ops.append(op)
+        s.params = dict(getattr(s, "params", {}) or {}, **p2)
         s.pre, s.data = newpre, other
         s.fitted = False
         if r.random() < 0.5:
@@ -526,8 +527,6 @@ def gen_history(seed, tier, classes=None, weights=None, n_ops=(6, 16),
         cand["random_state"] = r.randrange(10**6)
       if "diagonal" in cp:
         cand["diagonal"] = r.choice([True, False])
-      if "n_components" in cp:
-        cand["n_components"] = r.choice([None, 1, 2])
       if "embedding_type" in cp:
         cand["embedding_type"] = r.choice(["weighted", "orthonormalized", "plain"])
       if "sparsity_param" in cp:
@@ -539,7 +538,7 @@ def gen_history(seed, tier, classes=None, weights=None, n_ops=(6, 16),
         ops.append(dict(op="set_params", h=s.hid, params={key: cand[key]}, nondata=True))
         if s.fitted and r.random() < 0.5:
           ops.append(dict(op="query", h=s.hid, method=r.choice(methods(s)), probe=probe(s)))
-        if key in ("diagonal", "n_components", "embedding_type", "sparsity_param", "gamma"):
+        if key in ("diagonal", "embedding_type", "sparsity_param", "gamma"):
           # put the drawn value back before anything is fitted with it (it was
           # drawn for the data at hand; the detour must leave no trace)
           old_v = (getattr(s, "params", None) or {}).get(key, "<default>")
